@@ -94,6 +94,7 @@ type Interp struct {
 	results              *harnessResult
 	harness              string
 	stuFns               map[string]*Term // uninterpreted function applications
+	ufApps               []ufApp          // the same, in creation order (ufrefine.go)
 	regions              map[string]*Term
 	model                map[string]uint64 // a model of the current pc (nil if none known)
 	modelHits            int
@@ -148,6 +149,7 @@ func (in *Interp) resetPath() {
 	in.mapOrder = 0
 	in.ts.fresh = 0
 	in.stuFns = map[string]*Term{}
+	in.ufApps = nil
 	in.curFrame = nil
 	in.model = map[string]uint64{}
 	in.altModel = nil
